@@ -68,30 +68,47 @@ def verify(src, name, prop, needs):
         shutil.rmtree(wt, ignore_errors=True)
 
 
+SCRATCH = "/tmp/p2sh-seedrun"
+
+
 def run(name, tier, checks):
+    """runs the owning check(s) against a scratch worktree of /repo's HEAD with the change applied
+    (same effect as applying it to /repo and undoing it, without disturbing work in /repo)"""
     dst = os.path.join(SEEDED, name)
     meta = json.load(open(os.path.join(dst, "meta.json")))
     checks = checks or [meta["property"]]
-    rc, out = sh("git -C /repo status --porcelain")
-    assert out.strip() == "", "/repo is not clean"
-    rc, out = sh("git -C /repo apply %s" % os.path.join(dst, "patch.diff"))
+    wt = os.path.join(SCRATCH, "wt")
+    sh("git -C /repo worktree remove --force %s" % wt)
+    shutil.rmtree(wt, ignore_errors=True)
+    os.makedirs(SCRATCH, exist_ok=True)
+    rc, out = sh("git -C /repo worktree add --detach %s HEAD" % wt)
     assert rc == 0, out
     res = {}
     try:
-        for c in checks:
-            rc, out = sh("python3 vf.py check %s --tier %s" % (c, tier), cwd=VERIF, timeout=7200)
-            viol = [l for l in out.splitlines() if l.startswith("VIOLATION")]
-            first = ""
-            for i, l in enumerate(out.splitlines()):
-                if l.startswith("VIOLATION"):
-                    first = " | ".join(x.strip() for x in out.splitlines()[i + 1:i + 3])[:300]
-                    break
-            res[c] = {"tier": tier, "exit": rc, "violations": len(viol), "first": first}
-            print("%s %s on %s: exit %d, %d violation line(s) %s" % (c, tier, name, rc, len(viol), first))
+        shutil.copy("/repo/Cargo.lock", wt)
+        rc, out = sh("git apply --3way %s 2>&1 || git apply %s" % (os.path.join(dst, "patch.diff"), os.path.join(dst, "patch.diff")), cwd=wt)
+        if rc != 0:
+            print("PATCH DOES NOT APPLY to current HEAD: %s" % out[-300:])
+            res = {c: {"tier": tier, "error": "patch does not apply to current HEAD"} for c in checks}
+        else:
+            env = dict(os.environ, P2SH_SRC=wt, VF_BUILD=os.path.join(SCRATCH, "build"), VF_OUT=os.path.join(SCRATCH, "out"))
+            for c in checks:
+                rc, out = sh("python3 vf.py check %s --tier %s" % (c, tier), cwd=VERIF, timeout=7200, env=env)
+                lines = out.splitlines()
+                viol = [l for l in lines if l.startswith("VIOLATION")]
+                first = ""
+                for i, l in enumerate(lines):
+                    if l.startswith("VIOLATION"):
+                        first = " | ".join(x.strip() for x in lines[i + 1:i + 3])[:300]
+                        break
+                res[c] = {"tier": tier, "exit": rc, "violations": len(viol), "first": first,
+                          "head": subprocess.run("git -C /repo rev-parse --short HEAD", shell=True, capture_output=True, text=True).stdout.strip()}
+                print("%s %s on %s: exit %d, %d violation line(s) %s" % (c, tier, name, rc, len(viol), first))
+                if rc not in (0, 1):
+                    print("\n".join(lines[-8:]))
     finally:
-        sh("git -C /repo checkout -- .")
-        # evidence files were rewritten against a modified tree: restore the committed ones
-        sh("git checkout -- evidence", cwd=VERIF)
+        sh("git -C /repo worktree remove --force %s" % wt)
+        shutil.rmtree(wt, ignore_errors=True)
     meta.setdefault("detection", {}).update({"%s/%s" % (c, tier): v for c, v in res.items()})
     with open(os.path.join(dst, "meta.json"), "w") as f:
         json.dump(meta, f, indent=1)
